@@ -819,6 +819,23 @@ pub fn run_check(ctx: &Ctx) -> i32 {
     // (4) deeper documents with single ops
     let plans4: Vec<Plan> = small_menu.iter().map(|i| Plan::only_a(vec![i.clone()])).collect();
     run_plans(ctx, &format!("(4) {} single-call scripts x D<=4 x UTF-8 x L0 + cuts", plans4.len()), &d4, &plans4, &["UTF-8"], true);
+    // (6) every void element of the parser's list (and case variants): content operations are
+    // no-ops, before/after/replace/remove act on the single tag
+    let void_docs: Vec<Vec<DEv>> = crate::docgen::VOID
+        .iter()
+        .copied()
+        .chain(["BR", "Param", "keyGen"])
+        .flat_map(|n| vec![vec![DEv::open("q"), DEv::open(n), DEv::Text("t".into()), DEv::close("q")], vec![DEv::open(n), DEv::open("a"), DEv::close("a")]])
+        .collect();
+    let mut plans6: Vec<Plan> = menu.iter().map(|i| Plan { star: vec![i.clone()], ..Plan::only_a(vec![]) }).collect();
+    for a in &small_menu {
+        for b in &small_menu {
+            if !ambiguous(a, b) {
+                plans6.push(Plan { star: vec![a.clone(), b.clone()], ..Plan::only_a(vec![]) });
+            }
+        }
+    }
+    run_plans(ctx, &format!("(6) {} scripts of <=2 calls on `*` x {} documents with each void element of the parser's list x UTF-8 x L0 + cuts", plans6.len(), void_docs.len()), &void_docs, &plans6, &["UTF-8"], true);
     if !quick {
         let mut plans5 = vec![];
         for a in &small_menu {
